@@ -470,7 +470,7 @@ func runC29(r *lib.Run) {
 	if !any {
 		r.Inconclusive("no configuration with path structs is linked")
 	}
-	r.RequireCov("configuration", "configuration:vtoc/C-paths", "configuration:vtoc/C-paths-builder", "configuration:vtoc/C-paths-nowild", "configuration:vtoc/C-paths-simplify", "key-arg:uint64:19-20-digits", "accessor:leaf", "accessor:list", "accessor:container", "resolved-ok", "resolved-ok:wildcard")
+	r.RequireCov("configuration", "configuration:vtoc/C-paths", "configuration:vtoc/C-paths-builder", "configuration:vtoc/C-paths-nowild", "configuration:vtoc/C-paths-simplify", "configuration:vtocu/C-paths-wrapper", "key-arg:uint64:19-20-digits", "accessor:leaf", "accessor:list", "accessor:container", "resolved-ok", "resolved-ok:wildcard")
 }
 
 func argStrings(args []reflect.Value) []string {
